@@ -32,3 +32,32 @@ pub fn corr_c19(seed: u64, n: u64) {
     }
     stats.print("C19", "corr");
 }
+
+pub fn corr_c15(seed: u64, n: u64) {
+    let mut rng = Rng(seed ^ 0xC15);
+    let mut stats = Stats::new();
+    for i in 0..n {
+        let (c, kind) = gen_curve(&mut rng);
+        if i % 4 == 3 {
+            let k = 1 + rng.i(300) as usize;
+            let secs: Vec<(f64, f64)> = walk_curve_unevenly(&c, k).map(|s| s.original_curve_t_values()).collect();
+            let mut line = format!("C15 uneven D #{} | #{}", k, secs.len());
+            for (a, b) in &secs { line += &format!(" {} {}", hx(*a), hx(*b)); }
+            stats.case(&line, k > 1);
+            stats.count("uneven");
+            println!("{}", line);
+        } else {
+            let len = curve_length(&c, 0.01).max(1e-3);
+            let distance = len * rng.r(0.005, 2.0);
+            let max_error = distance * rng.r(0.01, 0.25);
+            let cap = 3000usize;
+            let secs: Vec<(f64, f64)> = walk_curve_evenly(&c, distance, max_error).take(cap).map(|s| s.original_curve_t_values()).collect();
+            let mut line = format!("C15 even R {} {} {} #{} | #{}", hxc(&c), hx(distance), hx(max_error), cap, secs.len());
+            for (a, b) in &secs { line += &format!(" {} {}", hx(*a), hx(*b)); }
+            stats.case(&line, secs.len() > 1);
+            stats.count(&format!("even.{}", kind));
+            println!("{}", line);
+        }
+    }
+    stats.print("C15", "corr");
+}
